@@ -35,6 +35,25 @@
 #include <stdlib.h>
 #include <limits.h>
 
+#ifdef LIBKDUMPFILE_VERIF
+/* Verification hook (add-only; expands to nothing without the guard).
+ * Called at the top of the cache entry points, and once more in
+ * cache_get_entry when the search result is known.
+ * fn: 0 = cache_get_entry (entry is NULL), 1 = cache_insert,
+ * 2 = cache_discard, 3 = cache_put_entry, 4 = result of cache_get_entry
+ * (entry is the returned entry, NULL if the cache is busy). */
+extern void verif_cache_event(int fn, struct cache *cache,
+			      struct cache_entry *entry)
+	__attribute__((weak));
+#define VERIF_CACHE_ENTRY(fn, cache, entry)			\
+	do {							\
+		if (verif_cache_event)				\
+			verif_cache_event((fn), (cache), (entry)); \
+	} while (0);
+#else
+#define VERIF_CACHE_ENTRY(fn, cache, entry)
+#endif
+
 /**  Simple cache.
  *
  * The cache is divided into five partitions:
@@ -559,7 +578,9 @@ cache_get_entry(struct cache *cache, cache_key_t key)
 {
 	struct cache_entry *entry;
 
+	VERIF_CACHE_ENTRY(0, cache, NULL)
 	entry = cache_get_entry_noref(cache, key);
+	VERIF_CACHE_ENTRY(4, cache, entry)
 	if (entry)
 		++entry->refcnt;
 
@@ -580,6 +601,7 @@ cache_insert(struct cache *cache, struct cache_entry *entry)
 {
 	unsigned idx;
 
+	VERIF_CACHE_ENTRY(1, cache, entry)
 	if (cache_entry_valid(entry))
 		return;
 
@@ -615,6 +637,7 @@ cache_insert(struct cache *cache, struct cache_entry *entry)
 void
 cache_put_entry(struct cache *cache, struct cache_entry *entry)
 {
+	VERIF_CACHE_ENTRY(3, cache, entry)
 	--entry->refcnt;
 }
 
@@ -636,6 +659,7 @@ cache_discard(struct cache *cache, struct cache_entry *entry)
 {
 	unsigned n, idx, eprobe;
 
+	VERIF_CACHE_ENTRY(2, cache, entry)
 	if (--entry->refcnt)
 		return;
 	if (cache_entry_valid(entry))
